@@ -449,7 +449,12 @@ Exact_Tid(d) ==
 
 \* PERSISTENT RESERVE OUT parameter lists (SPC-4 tables 224, 225, 227)
 PrOutKeys(b) == { Nm("reservation_key", Un(b, 0, 8)), Nm("service_action_reservation_key", Un(b, 8, 8)) }
-P_PrOutBasic(b) == PrOutKeys(b) \cup { Nm("spec_i_pt", Fl(b, 20, 3, 1)), Nm("all_tg_pt", Fl(b, 20, 2, 1)), Nm("aptpl", Fl(b, 20, 0, 1)) }
+\* names starting with # are bits the standard reserves (or has made obsolete): no caller value maps to them,
+\* so the judge demands that they read as zero
+P_PrOutBasic(b) == PrOutKeys(b) \cup { Nm("spec_i_pt", Fl(b, 20, 3, 1)), Nm("all_tg_pt", Fl(b, 20, 2, 1)), Nm("aptpl", Fl(b, 20, 0, 1)),
+                                     Nm("#obsolete 16-19", Un(b, 16, 4)), Nm("#reserved 20.7:4", Fl(b, 20, 7, 4)),
+                                     Nm("#reserved 20.1", Fl(b, 20, 1, 1)), Nm("#reserved 21", Un(b, 21, 1)),
+                                     Nm("#obsolete 22-23", Un(b, 22, 2)) }
 Exact_PrOutBasic(b) == Len(b) = 24
 RECURSIVE TidOffsets(_, _, _)
 TidOffsets(b, off, end) == IF off + 4 > end THEN <<>>
@@ -465,7 +470,8 @@ Exact_PrOutSpecIpt(b) ==
        /\ (IF offs = <<>> THEN Len(b) = 28 ELSE offs[Len(offs)] + TidSize(Bs(b, offs[Len(offs)], Len(b) - offs[Len(offs)])) = Len(b))
        /\ \A i \in 1..Len(offs) : Exact_Tid(Bs(b, offs[i], TidSize(Bs(b, offs[i], Len(b) - offs[i]))))
 P_PrOutRegMove(b) ==
-    PrOutKeys(b) \cup { Nm("unreg", Fl(b, 17, 1, 1)), Nm("aptpl", Fl(b, 17, 0, 1)), Nm("relative_target_port_id", Fl(b, 18, 7, 16)) }
+    PrOutKeys(b) \cup { Nm("unreg", Fl(b, 17, 1, 1)), Nm("aptpl", Fl(b, 17, 0, 1)), Nm("relative_target_port_id", Fl(b, 18, 7, 16)),
+                       Nm("#reserved 16", Un(b, 16, 1)), Nm("#reserved 17.7:6", Fl(b, 17, 7, 6)) }
     \cup (IF Len(b) > 24 THEN TransportIdOut("transport_id", Bs(b, 24, Len(b) - 24)) ELSE {})
 Exact_PrOutRegMove(b) == Len(b) >= 24 /\ Nn(b, 20, 4) = Len(b) - 24 /\ (Len(b) > 24 => Exact_Tid(Bs(b, 24, Len(b) - 24)))
 
@@ -494,12 +500,13 @@ SegSize(code) == IF code \in {2, 13} THEN 28 ELSE 24
 Seg(b, o, p, sk, dk) ==
     LET code == Nn(b, o, 1) IN
     { Nm(p \o "/descriptor_type_code", Fl(b, o, 7, 8)), Nm(p \o "/cat", Fl(b, o + 1, 0, 1)),
-      Nm(p \o "/" \o sk, Fl(b, o + 4, 7, 16)), Nm(p \o "/" \o dk, Fl(b, o + 6, 7, 16)) } \cup
+      Nm(p \o "/" \o sk, Fl(b, o + 4, 7, 16)), Nm(p \o "/" \o dk, Fl(b, o + 6, 7, 16)),
+      Nm(p \o "/#reserved 8", Un(b, o + 8, 1)) } \cup
     (IF code \in {2, 13}
-     THEN { Nm(p \o "/dc", Fl(b, o + 1, 1, 1)), Nm(p \o "/block_device_number_of_blocks", Fl(b, o + 10, 7, 16)),
+     THEN { Nm(p \o "/dc", Fl(b, o + 1, 1, 1)), Nm(p \o "/#reserved 1.7:6", Fl(b, o + 1, 7, 6)), Nm(p \o "/#reserved 9", Un(b, o + 9, 1)), Nm(p \o "/block_device_number_of_blocks", Fl(b, o + 10, 7, 16)),
             Nm(p \o "/source_block_device_logical_block_address", Fl(b, o + 12, 7, 64)),
             Nm(p \o "/destination_block_device_logical_block_address", Fl(b, o + 20, 7, 64)) }
-     ELSE { Nm(p \o "/stream_device_transfer_length", Fl(b, o + 9, 7, 24)),
+     ELSE { Nm(p \o "/stream_device_transfer_length", Fl(b, o + 9, 7, 24)), Nm(p \o "/#reserved 12-13", Un(b, o + 12, 2)),
             Nm(p \o "/block_device_number_of_blocks", Fl(b, o + 14, 7, 16)),
             Nm(p \o "/block_device_logical_block_address", Fl(b, o + 16, 7, 64)) })
 RECURSIVE SegOffsets(_, _, _)
@@ -518,13 +525,15 @@ XcopyExact(b, hdr, tl, sl, il) ==
        /\ (IF so = <<>> THEN sl = 0 ELSE so[Len(so)] + SegSize(Nn(b, so[Len(so)], 1)) = hdr + tl + sl)
        /\ \A i \in 1..Len(so) : Nn(b, so[i] + 2, 2) = SegSize(Nn(b, so[i], 1)) - 4      \* DESCRIPTOR LENGTH (n-3)
 P_XcopyLid1(b) ==
-    { Nm("list_identifier", Fl(b, 0, 7, 8)), Nm("sequential_striped", Fl(b, 1, 5, 1)), Nm("nrcr", Fl(b, 1, 4, 1)), Nm("priority", Fl(b, 1, 2, 3)) }
+    { Nm("list_identifier", Fl(b, 0, 7, 8)), Nm("sequential_striped", Fl(b, 1, 5, 1)), Nm("nrcr", Fl(b, 1, 4, 1)), Nm("priority", Fl(b, 1, 2, 3)),
+      Nm("#reserved 1.7:2", Fl(b, 1, 7, 2)), Nm("#reserved 1.3", Fl(b, 1, 3, 1)), Nm("#reserved 4-7", Un(b, 4, 4)) }
     \cup XcopyBody(b, 16, Nn(b, 2, 2), Nn(b, 8, 4), Nn(b, 12, 4), "target_descriptor_parameters",
                    "source_target_descriptor_id", "destination_target_descriptor_id", "target_descriptor_list")
 Exact_XcopyLid1(b) == Len(b) >= 16 /\ XcopyExact(b, 16, Nn(b, 2, 2), Nn(b, 8, 4), Nn(b, 12, 4))
 P_XcopyLid4(b) ==
     { Nm("sequential_striped", Fl(b, 1, 5, 1)), Nm("list_id_usage", Fl(b, 1, 4, 2)), Nm("priority", Fl(b, 1, 2, 3)),
-      Nm("g_sense", Fl(b, 15, 1, 1)), Nm("immed", Fl(b, 15, 0, 1)), Nm("list_identifier", Fl(b, 20, 7, 32)) }
+      Nm("g_sense", Fl(b, 15, 1, 1)), Nm("immed", Fl(b, 15, 0, 1)), Nm("list_identifier", Fl(b, 20, 7, 32)),
+      Nm("#reserved 1.7:2", Fl(b, 1, 7, 2)) }
     \cup XcopyBody(b, 48, Nn(b, 42, 2), Nn(b, 44, 2), Nn(b, 46, 2), "cscd_descriptor_parameters",
                    "source_cscd_descriptor_id", "destination_cscd_descriptor_id", "cscd_descriptor_list")
 Exact_XcopyLid4(b) == Len(b) >= 48 /\ Nn(b, 0, 1) = 1 /\ Nn(b, 2, 2) = 32 /\ Nn(b, 16, 1) = 255
